@@ -1,5 +1,9 @@
 import json
 props = {
+ "C02": ("H-OP", "seeded search over interleavings of 1-4 concurrent sender streams (events, watermarks, barriers at per-sender positions, 1-3 consecutive checkpoints) with the operator's event loop, batch time-outs, handler latency and DKV background tasks; oracle: at every acknowledgement exactly the pre-barrier events have been applied, and the acknowledged checkpoint, read back independently, holds exactly their state and pending timers", "5.C02"),
+ "C03": ("H-OP", "seeded search over histories of handler-returned puts/deletes over adversarial subject keys / namespaces / entry keys, batchings and flush/compaction timings; oracle: on every handler invocation the supplied state equals the shadow map exactly", "5.C03"),
+ "C06": ("H-OP", "seeded search over rescales M->N (1-4 each) through the real Assembly.Deploy with every permutation of the recorded operator checkpoints, operators replaced or redeployed in place, state in memtable/flushed/compacted; oracle: reference handler after the restore (state, timers at the new owner, exactly once) + independent read-back of the next checkpoints", "5.C06"),
+ "C11": ("H-OP", "part (b) of the property: seeded search over interleavings of 1-4 senders' watermark messages with events; oracle: the watermark the handler is told is the minimum of the upstreams' latest processed watermarks (unreported = epoch), no timer later than it fires. Part (a), the source runner's own watermark, is checked by the cluster harness when registered", "5.C11"),
  "C17": ("H-DKV-LOW", "seeded generation of entry runs and WAL histories against a slice model, with the simulator owning the restart between write and read (reopen from JSON descriptor) and the Truncate-vs-writer interleaving; weakest fit for the technique, stated in DESIGN.md", "5.C17"),
  "C12": ("H-STORE", "seeded search over create/savepoint/ack sequences (duplicates, wrong ids, foreign senders) interleaved with the asynchronous publication goroutines and store restarts; oracle: reference checkpoint state machine + independent decoding of every published snapshot", "5.C12"),
  "C13": ("H-STORE", "seeded search over chains of completed checkpoints (ids on base64 alphabet boundaries) with a crash after any storage operation and overlapping asynchronous write/remove/notify steps; oracle: restart resumes from the highest id decodable in storage, newest snapshot never removed, retention notifications monotone", "5.C13"),
